@@ -160,6 +160,33 @@ func c13Run(c c13Case) (opts []ndp.Option, err error, panicked any) {
 			return ra2.Options, fmt.Errorf("verif: second build differs (%v): %v vs %v", err2, c13Describe(ra2.Options), c13Describe(ra.Options)), nil
 		}
 	}
+	if err == nil {
+		// A build onto an RA that already carries options (stanzas listed before the
+		// wildcard, among them prefixes with the same base address as an interface /64, at
+		// another length and at the same length): the earlier options stay, the wildcard's
+		// are appended unchanged.
+		pre := []ndp.Option{ndp.NewMTU(1480)}
+		for _, ip := range in {
+			a := ip.Address.Addr()
+			if a.Is6() && !a.Is4In6() {
+				m64, _ := a.Prefix(64)
+				m56, _ := a.Prefix(56)
+				pre = append(pre,
+					&ndp.PrefixInformation{Prefix: m64.Addr(), PrefixLength: 56, OnLink: true, ValidLifetime: 9 * time.Second, PreferredLifetime: 8 * time.Second},
+					&ndp.PrefixInformation{Prefix: m56.Addr(), PrefixLength: 56, OnLink: true, ValidLifetime: 9 * time.Second, PreferredLifetime: 8 * time.Second},
+					&ndp.PrefixInformation{Prefix: m64.Addr(), PrefixLength: 64, ValidLifetime: 7 * time.Second, PreferredLifetime: 6 * time.Second})
+			}
+		}
+		ra3 := &ndp.RouterAdvertisement{Options: append([]ndp.Option(nil), pre...)}
+		err3 := p.Apply(ra3)
+		ok := err3 == nil && len(ra3.Options) >= len(pre)
+		for i := 0; ok && i < len(pre); i++ {
+			ok = ra3.Options[i] == pre[i]
+		}
+		if !ok || !(reflect.DeepEqual(ra3.Options[len(pre):], ra.Options) || len(ra3.Options) == len(pre) && len(ra.Options) == 0) {
+			return ra3.Options, fmt.Errorf("verif: build onto an RA that already carries %d options differs (%v): %v, alone: %v", len(pre), err3, c13Describe(ra3.Options), c13Describe(ra.Options)), nil
+		}
+	}
 	return ra.Options, err, nil
 }
 
@@ -187,6 +214,9 @@ func c13Check(c c13Case) [][2]string {
 			out = append(out, [2]string{"C13:source-failure-swallowed", "address source failed but Apply returned nil (advertising " + fmt.Sprint(c13Describe(got)) + ")"})
 		}
 		return out
+	}
+	if err != nil && strings.HasPrefix(err.Error(), "verif: build onto an RA") {
+		return [][2]string{{"C13:depends-on-earlier-options", fmt.Sprintf("addresses %s stanza %d: %v", ev.JSON(c.Addrs), c.Stanza, err)}}
 	}
 	if err != nil && strings.HasPrefix(err.Error(), "verif: second build differs") {
 		return [][2]string{{"C13:rebuild-differs", fmt.Sprintf("addresses %s stanza %d: %v", ev.JSON(c.Addrs), c.Stanza, err)}}
@@ -275,7 +305,7 @@ func c13Nontrivial(c c13Case) bool {
 func TestVerifC13(t *testing.T) {
 	r := ev.Begin("C13", "enum")
 	defer r.End(t)
-	r.Rule = "address lists = all subsets (size<=K) of a 13-address pool (GUA/ULA/link-local/IPv4, /48 /64 /128, every exclusion flag, several hosts per /64), each in all permutations, plus each list with one element duplicated, x 3 stanza variants, + all subsets (size<=4) in all permutations of a 9-address pool of eligible /64s whose textual and numeric orders differ + failing source + source failing transiently (EINTR/EAGAIN, bare and wrapped) 1..5 times in a row before answering; non-trivial = >=1 eligible address and (an excluded address, a shared /64 or >=2 distinct /64s); distinct = distinct ordered list x stanza"
+	r.Rule = "[every successful build is repeated on the same plugin value and onto an RA that already carries an MTU option and prefix options with the base addresses of the interface /64s (at /56 and /64): same result, earlier options untouched] address lists = all subsets (size<=K) of a 13-address pool (GUA/ULA/link-local/IPv4, /48 /64 /128, every exclusion flag, several hosts per /64), each in all permutations, plus each list with one element duplicated, x 3 stanza variants, + all subsets (size<=4) in all permutations of a 9-address pool of eligible /64s whose textual and numeric orders differ + failing source + source failing transiently (EINTR/EAGAIN, bare and wrapped) 1..5 times in a row before answering; non-trivial = >=1 eligible address and (an excluded address, a shared /64 or >=2 distinct /64s); distinct = distinct ordered list x stanza"
 	r.Assumptions = []string{"address source replaced by an injected function (Prefix.Addrs); rtnetlink decoding not covered"}
 
 	if r.Replay != nil {
